@@ -184,6 +184,12 @@ def check_property(pid, tier, seed):
         cov['kernel_crosscheck'] = {'cases_evaluated_in_coq': n_x, 'disagreements_with_extracted_driver': len(bad_x)}
         for cid, kv, ev_ in bad_x:
             mismatches.append((cid, 'extraction-vs-kernel', 'kernel digest %s' % kv, 'extracted digest %s' % ev_))
+        with build.lock():
+            n_p, bad_p = kernel_xcheck.xcheck_pure(cases, model, workdir, 40 if tier == 'quick' else 400, rng)
+        cov['kernel_crosscheck']['pure_cases_evaluated_in_coq'] = n_p
+        cov['kernel_crosscheck']['pure_disagreements_with_extracted_driver'] = len(bad_p)
+        for cid, kv, ev_ in bad_p:
+            mismatches.append((cid, 'extraction-vs-kernel', 'kernel value %s' % kv, 'extracted value %s' % ev_))
     except build.BuildError as e:
         cov['kernel_crosscheck'] = {'error': e.what}
         mismatches.append(('-', 'extraction-vs-kernel: ' + e.what, None, e.output[-500:]))
